@@ -149,7 +149,7 @@ def check_program(g, v, ctx):
         opt_exc = e
     ctx.count("raise_differentials")
     if raw_exc is None and opt_exc is not None:
-        problems.append(("optimization_raises", f"optimized path raises, un-optimized path computes: {short_tb(opt_exc, 10)}", baked_grid_key(f"optimization_raises:{type(opt_exc).__name__}:{exc_site(opt_exc)}:{msg_key(opt_exc)}", g.closure(v.id)) + z))
+        problems.append(("optimization_raises", f"optimized path raises, un-optimized path computes: {short_tb(opt_exc, 10)}", (f"optimization_raises:{type(opt_exc).__name__}:{exc_site(opt_exc)}:{msg_key(opt_exc)}" if z else baked_grid_key(f"optimization_raises:{type(opt_exc).__name__}:{exc_site(opt_exc)}:{msg_key(opt_exc)}", g.closure(v.id))) + z))
     elif raw_exc is not None and opt_exc is not None:
         ctx.tab("not_computable_both_raise", f"{type(raw_exc).__name__}:{exc_site(raw_exc)}")
     elif raw_exc is not None:
